@@ -146,7 +146,7 @@ def canon(doc):
 
 
 # --------------------------------------------------------------------- S-CONST positions
-STRINGS = ["", "a", "\xe9", "\U0001F600", "\udc80", "a\ud800b", "\x00", "nan", "int", "frozenset", "string", "\\udc80", "'q'", "\udc80\U0001fae0\U0001fa70"]
+STRINGS = ["", "a", "\xe9", "\U0001F600", "\udc80", "a\ud800b", "\x00", "nan", "int", "frozenset", "string", "\\udc80", "'q'", "\udc80\U0001fae0\U0001fa70", "\ud83d\ude00", "x\ud83d\ude00\ud83d"]
 STRING_POSITIONS = ["name", "local", "param", "cell", "free", "co_name", "co_filename", "docstring", "class-name"]
 
 
